@@ -199,8 +199,24 @@ func mustRerun(c *sim.Case, recorded map[string]string) map[string]bool {
 	return R
 }
 
+// OnlyOrder restricts the verdict to the dependency-order clause (C01's stage on
+// retry runs: what is re-executed and how often is C10's and C03's business).
+var OnlyOrder bool
+
 func judge(c2 *sim.Case, r *sim.Result, recorded map[string]string) string {
 	R := mustRerun(c2, recorded)
+	if OnlyOrder {
+		kept := map[string]bool{}
+		for i := range c2.Steps {
+			if !R[c2.Steps[i].Name] {
+				kept[c2.Steps[i].Name] = true
+			}
+		}
+		if msg := sim.JudgeC01Kept(c2, r, kept); msg != "" {
+			return "dependency order violated during the retry: " + msg
+		}
+		return ""
+	}
 	an := sim.Analyze(r.Trace)
 	kept := map[string]bool{}
 	for i := range c2.Steps {
